@@ -58,9 +58,12 @@ def obs_runs(res, pid, plans, props, wd, tag, nontrivial=None, detail=0, panic_i
                 continue
             seen.add(key)
             replay = core.save_replay(pid, path, run, "%s_%03d_s%d" % (tag, i, res.seed))
+            cls = cls_of(grp[min(run, len(grp)) - 1]) if cls_of else tag
+            if isinstance(det, list) and det and isinstance(det[-1], str) and det[-1].startswith("cls:"):
+                cls = det[-1][4:]       # history class computed by the TLA+ monitor
             res.violations.append({
                 "prop": prop, "code": code, "line": n, "detail": det, "family": tag,
-                "cls": cls_of(grp[min(run, len(grp)) - 1]) if cls_of else tag, "replay": replay,
+                "cls": cls, "replay": replay,
             })
         if not r["viol"]:
             try:
@@ -105,7 +108,7 @@ GEN_DEFAULTS = {
     "QL": "128", "Peers": "GenPeers2", "NumPlayers": "2", "Window": "2", "Sparse": "FALSE",
     "PredDefault": "FALSE", "DesyncInterval": "0", "Fps": "60", "Timeout": "2000", "Notify": "500",
     "Values": "GenValues", "MaxFrame": "8", "LinkCap": "2", "DupBudget": "1", "ClockSteps": "NoClock",
-    "MaxClock": "1000000", "PreSynced": "TRUE", "InboxCap": "2", "EagerNet": "FALSE", "DelayValues": "{}", "VaryAll": "TRUE",
+    "MaxClock": "1000000", "PreSynced": "TRUE", "InboxCap": "2", "Mortal": "{}", "EagerNet": "FALSE", "DelayValues": "{}", "VaryAll": "TRUE",
     "Granular": "TRUE",
     "MaxSteps": "80",
 }
@@ -236,8 +239,11 @@ def s2i_runs(res, pid, wd, tag, over, num, depth, props, presync=True, conform=T
                 continue
             seen.add((prop, code))
             replay = core.save_replay(pid, path, run, "%s_%03d_s%d" % (tag, i, res.seed))
+            vcls = cls or tag
+            if isinstance(det, list) and det and isinstance(det[-1], str) and det[-1].startswith("cls:"):
+                vcls = det[-1][4:]       # history class computed by the TLA+ monitor
             res.violations.append({"prop": prop, "code": code, "line": n, "detail": det, "family": tag,
-                                   "cls": cls or tag, "replay": replay})
+                                   "cls": vcls, "replay": replay})
         if not r["viol"] and not (d and d["drift"]):
             for pth in (path, path + ".plans.json"):
                 try:
